@@ -836,6 +836,9 @@ def run(ctx):
                     "wave 7: quoteattr - the strict parser reads the attribute value written for ANY string over XML Char back "
                     "as that string (C03_quoteattr_roundtrip, _content_roundtrip); the DFXP payload theorems hold for style "
                     "dictionaries with any colour (C03_*_payload_parse_color, _wellformed_color)",
+                    "round 4: the WebVTT model DOCUMENT (node-level layouts) is accepted by the block grammar and read as exactly one "
+                    "cue per layout group with the lines of that group's cue text (C03_vtt_doc_cues_partial: raw payload lines; "
+                    "the per-line display against the authored lines is not part of it)",
                     "wave 7: WebVTT captions written as several cues (layout groups): no cue text of any group contains "
                     "'-->' (C03_vtt_groups_no_arrow); one layout = the single cue text (C03_vtt_groups_one_layout)",
                     "SRT: model document (merge of equally timed captions included) read by the block grammar satisfies "
